@@ -52,6 +52,126 @@ fn entries_slice(bytes: &[u8]) -> String {
         Err(()) => "PANIC".into(),
     }
 }
+/// the normal entries of an archive with solid blocks expanded (no password), up to and including the first error,
+/// through the four ways the library offers: 0 = entries() + SolidEntry::entries by hand, 1 = entries().extract_solid_entries,
+/// 2 = entries_with_password (NormalEntries), 3 = entries_slice().extract_solid_entries
+fn flat(bytes: &[u8], how: u8) -> String {
+    fn cut(items: Vec<R<String>>) -> String {
+        let mut out = Vec::new();
+        for i in items {
+            match i {
+                Ok(s) => out.push(s),
+                Err(e) => {
+                    out.push(format!("ERR {}", ekind(&e)));
+                    break;
+                }
+            }
+        }
+        out.join(";")
+    }
+    match guard(|| -> R<String> {
+        Ok(match how {
+            0 => {
+                let mut a = Archive::read_header(bytes)?;
+                let mut v: Vec<R<String>> = Vec::new();
+                'outer: for e in a.entries() {
+                    match e {
+                        Ok(ReadEntry::Normal(n)) => v.push(Ok(show_normal(&n))),
+                        Ok(ReadEntry::Solid(s)) => match s.entries(None) {
+                            Ok(it) => {
+                                for ne in it {
+                                    let bad = ne.is_err();
+                                    v.push(ne.map(|n| show_normal(&n)));
+                                    if bad {
+                                        break 'outer;
+                                    }
+                                }
+                            }
+                            Err(e) => {
+                                v.push(Err(e));
+                                break;
+                            }
+                        },
+                        Err(e) => {
+                            v.push(Err(e));
+                            break;
+                        }
+                    }
+                }
+                cut(v)
+            }
+            1 => {
+                let mut a = Archive::read_header(bytes)?;
+                let v: Vec<R<String>> = a.entries().extract_solid_entries(None).map(|r| r.map(|n| show_normal(&n))).take_while_inclusive_ok().collect();
+                cut(v)
+            }
+            2 => {
+                let mut a = Archive::read_header(bytes)?;
+                let v: Vec<R<String>> = a.entries_with_password(None).map(|r| r.map(|n| show_normal(&n))).take_while_inclusive_ok().collect();
+                cut(v)
+            }
+            _ => {
+                let mut a = Archive::read_header_from_slice(bytes)?;
+                let v: Vec<R<String>> = a.entries_slice().extract_solid_entries(None).map(|r| r.map(|n| show_normal(&n))).take_while_inclusive_ok().collect();
+                cut(v)
+            }
+        })
+    }) {
+        Ok(Ok(s)) => format!("FLAT {}", s),
+        Ok(Err(e)) => format!("ERR {}", ekind(&e)),
+        Err(()) => "PANIC".into(),
+    }
+}
+/// stop an iterator of results after its first error (an iterator that repeats an error forever must not hang the harness)
+trait TakeWhileInclusiveOk: Iterator + Sized {
+    fn take_while_inclusive_ok(self) -> InclusiveOk<Self> {
+        InclusiveOk { it: self, done: false, left: 100_000 }
+    }
+}
+impl<T, I: Iterator<Item = R<T>>> TakeWhileInclusiveOk for I {}
+struct InclusiveOk<I> {
+    it: I,
+    done: bool,
+    left: usize,
+}
+impl<T, I: Iterator<Item = R<T>>> Iterator for InclusiveOk<I> {
+    type Item = R<T>;
+    fn next(&mut self) -> Option<R<T>> {
+        if self.done || self.left == 0 {
+            return None;
+        }
+        self.left -= 1;
+        let x = self.it.next()?;
+        if x.is_err() {
+            self.done = true;
+        }
+        Some(x)
+    }
+}
+/// the copy of `reser` through the slice reader's entry types (Cow-backed): 0 = add_entry (write_in of the Cow variants),
+/// 1 = EntryPart::from(entry) + add_entry_part (into_chunks of the Cow variants), 2 = converted to the owned variants first
+fn reser_slice(bytes: &[u8], how: u8) -> Result<R<(Vec<u8>, usize)>, ()> {
+    guard(|| -> R<(Vec<u8>, usize)> {
+        let mut a = Archive::read_header_from_slice(bytes)?;
+        let mut w = Archive::write_header(Vec::new())?;
+        let mut n = 0;
+        for e in a.entries_slice() {
+            let e = e?;
+            n += match how {
+                0 => w.add_entry(e)?,
+                1 => match e {
+                    ReadEntry::Normal(x) => w.add_entry_part(EntryPart::from(x))?,
+                    ReadEntry::Solid(x) => w.add_entry_part(EntryPart::from(x))?,
+                },
+                _ => match e {
+                    ReadEntry::Normal(x) => w.add_entry(NormalEntry::<Vec<u8>>::from(x))?,
+                    ReadEntry::Solid(x) => w.add_entry(SolidEntry::<Vec<u8>>::from(x))?,
+                },
+            };
+        }
+        Ok((w.finalize()?, n))
+    })
+}
 fn chunks_stream(bytes: &[u8]) -> String {
     match guard(|| -> R<(Vec<String>, R<()>)> {
         let it = read_as_chunks(bytes)?;
@@ -453,6 +573,16 @@ fn run(c: &Case, oracle: &mut Vec<String>) -> String {
             if s1 != s2 {
                 oracle.push(format!("stream and slice readers disagree: stream={} slice={}", &s1[..s1.len().min(100)], &s2[..s2.len().min(100)]));
             }
+            // C03 / C17: the four ways of walking the normal entries with solid blocks expanded agree
+            let f0 = flat(&b, 0);
+            for how in 1..4u8 {
+                let f = flat(&b, how);
+                if f != f0 {
+                    let names = ["entries + SolidEntry::entries", "entries().extract_solid_entries", "entries_with_password", "entries_slice().extract_solid_entries"];
+                    oracle.push(format!("the expanded entry sequence depends on the iterator used: {} gives {} / {} gives {}", names[0],
+                        &f0[..f0.len().min(160)], names[how as usize], &f[..f.len().min(160)]));
+                }
+            }
             let s = if a[0] == "slice" { s2 } else { s1 };
             // ---- property oracles against the unmodified base (C05, C06)
             if c.op != "entries" {
@@ -596,6 +726,18 @@ fn run(c: &Case, oracle: &mut Vec<String>) -> String {
                             }
                         }
                         _ => oracle.push("EntryPart::from(entry) + add_entry_part failed where add_entry succeeded".into()),
+                    }
+                    // ... and so do the same two paths on the entry types the slice reader hands out (Cow-backed
+                    // copies of the serialisers), and the conversion to the owned types
+                    for how in 0..3u8 {
+                        match reser_slice(&b, how) {
+                            Ok(Ok((bs, ns))) => {
+                                if bs != b1 || ns != n1 {
+                                    oracle.push(format!("re-serialising the slice reader's entries (path {}: 0 add_entry, 1 EntryPart::from + add_entry_part, 2 converted to owned) writes other bytes than the stream reader's entries", how));
+                                }
+                            }
+                            _ => oracle.push(format!("re-serialising the slice reader's entries (path {}) failed where the stream reader's succeeded", how)),
+                        }
                     }
                     let r2 = reser(&b1);
                     match &r2 {
